@@ -3,6 +3,7 @@
 #pragma once
 #include "libeconf.h"
 #include "getfilecontents.h"
+#include "keyfile.h"
 
 void econf_requireOwner(uid_t owner)
 __CPROVER_assigns(file_owner_set, file_owner)
@@ -24,3 +25,17 @@ __CPROVER_ensures(allow_follow_symlinks == allow);
 void econf_reset_security_settings(void)
 __CPROVER_assigns(file_owner_set, file_group_set, file_permissions_set, allow_follow_symlinks)
 __CPROVER_ensures(!file_owner_set && !file_group_set && !file_permissions_set && allow_follow_symlinks);
+
+/* C07/C10: the delimiter / comment tags of an object (lib/libeconf.c) */
+char econf_comment_tag(econf_file *key_file)
+__CPROVER_assigns()
+__CPROVER_ensures(__CPROVER_return_value == (key_file ? key_file->comment : 0));
+char econf_delimiter_tag(econf_file *key_file)
+__CPROVER_assigns()
+__CPROVER_ensures(__CPROVER_return_value == (key_file ? key_file->delimiter : 0));
+void econf_set_comment_tag(econf_file *key_file, const char comment)
+__CPROVER_assigns(key_file != NULL: key_file->comment)
+__CPROVER_ensures(key_file == NULL || key_file->comment == comment);
+void econf_set_delimiter_tag(econf_file *key_file, const char delimiter)
+__CPROVER_assigns(key_file != NULL: key_file->delimiter)
+__CPROVER_ensures(key_file == NULL || key_file->delimiter == delimiter);
